@@ -11,7 +11,7 @@ class Grammar(qc.FullGrammar):
                     ("suspend", 1), ("resume", 1), ("retarget", 2)]
 
     def build_graph(self, P, h):
-        n = qc.build_full_graph(P, h, allow_workloop=self.allow_workloop, serial_bottom=True, allow_main=True)
+        n = qc.build_full_graph(P, h, allow_workloop=self.allow_workloop, serial_bottom=True, allow_main=True, inactive=True)
         P.groups = [0]
         P.pool_done = False
         P.movable, P.immigrants = [], {}
@@ -39,6 +39,25 @@ class Grammar(qc.FullGrammar):
             P.queue(m, kind, itarget, chain=-1)
             P.custom.append(m)
             P.immigrants[m] = None            # settarget op once emitted
+
+    def prologue(self, P, h):
+        # queues created initially inactive: thread 0 optionally retargets them (inside the hierarchy, legal before activation even when other queues
+        # already target them) and then activates them, before anything else it does; other threads may already be submitting to them
+        for q in P.custom:
+            d = P.queues[q]
+            if not (d["flags"] & 1) or d["kind"] not in (0, 1):
+                continue
+            if q > 0 and (h[19] >> (q % 8)) & 1:
+                cands = [x for x in P.custom if x < q and x != d["target"] and x not in getattr(P, "immigrants", {}) and x != getattr(P, "outside", None)
+                         and x not in getattr(P, "movable", [])]       # (a queue that is retargeted at run time must stay a leaf)
+                if cands:
+                    nt = cands[(h[20] + q) % len(cands)]
+                    d["itarget"] = d["target"]
+                    d["target"] = nt
+                    P.op(0, "settarget", a=q, b=nt, thread=0)
+                    P.features.add("retarget-before-activation")
+            P.op(0, "activate", a=q, b=-1, thread=0)
+            P.features.add("created-inactive")
 
     def rank_of(self, P, q):
         if P.queues[q]["kind"] == 2:
@@ -127,7 +146,8 @@ class Check(E3Check):
     prop = "C03"
     mc_workers = 3
     rule = ("Hypothesis recipe -> sound program over a generated hierarchy: 1-6 custom queues (serial and concurrent) all chained through target queues "
-            "(dispatch_queue_create_with_target, or dispatch_queue_create + dispatch_set_target_queue) onto ONE bottom that is a serial queue or a workloop; "
+            "(dispatch_queue_create_with_target, or dispatch_queue_create + dispatch_set_target_queue) onto ONE bottom that is a serial queue, the main queue or a workloop; some queues are created initially inactive, retargeted inside the hierarchy before "
+            "activation and then activated by thread 0 while other threads already submit to them; "
             "1-4 threads issue every submission API at every level, dispatch_sync through several levels, awaits, nested submissions, suspend/resume, and retarget busy leaf "
             "queues (legacy dispatch_set_target_queue) onto other queues of the same hierarchy, or move busy legacy queues from outside (a global queue or "
             "a separate serial queue) into it: items queued behind the retarget are judged as members of the hierarchy, items submitted before it as members "
